@@ -103,7 +103,8 @@ def sub_lang_guess(tj):
             if r.peek() == 0:
                 r.byte()
                 idx = r.mb()
-                r.mb()
+                if op[0] != 0:
+                    r.mb()
                 n = r.mb()
                 tb = r.take(n)
                 s = tb[idx:tb.find(b"\0", idx)].decode("utf-8", "replace")
@@ -235,9 +236,11 @@ def _shape(ks):
 
 def expected_header(tj, lang_id, version, anonymous):
     l = [x for x in tj["langs"] if x["id"] == lang_id][0]
+    if anonymous:
+        return ("num", 1)             # 'unknown', whatever the language, and no id string
     if l["pub_num"] != 1:
         return ("num", l["pub_num"])
-    if anonymous or l["pub_text"] is None:
+    if l["pub_text"] is None:
         return ("num", 1)
     return ("str", l["pub_text"])
 
